@@ -37,6 +37,8 @@ var Atoms = []string{
 	"\u212a", "\u0130", "\u017f", "\u212b", "\u212aa:", "htt\u212a:", "f\u0130le:", "\u0130:", "\u0131", "\u212a",
 	// digit and hex-digit lookalikes from other scripts (fullwidth, Arabic-Indic), huge numbers
 	"\uff11", "\uff10", "\uff41", "\uff26", "\u0663", ":\uff18\uff10", "[::\uff41]", "[::1.2.3.18446744073709551617]", "18446744073709551617", "1.2.3.18446744073709551617",
+	// letters / signs that only LOOK like scheme characters (fullwidth, Cyrillic, Greek), Unicode spaces and BOM
+	"\uff21\uff22:", "\u0430:", "\u0391b:", "a\uff0bb:", "a\u2010b:", "\ufeff", "\ufeffhttp://h/", "\u0085", "\u00a0", "\u2003", "\u3000", "\u200b",
 	// delimiters
 	":", ":", ":", "/", "/", "/", "//", "//", "\\", "\\", "\\\\", "?", "?", "#", "#", "@", "@", "[", "]", ";", "=", "&",
 	// dot segments
@@ -203,7 +205,7 @@ func URL(t *rapid.T, label string) string {
 	return Noise(t, label+".noise", s)
 }
 
-var wrap = []string{" ", "\t", "\n", "\x00", "\x1f", "  ", "\r\n", "\x0c"}
+var wrap = []string{" ", "\t", "\n", "\x00", "\x1f", "  ", "\r\n", "\x0c", "\u0085", "\u00a0", "\u2003", "\u2028", "\u3000", "\ufeff", "\x7f", "\u200b", " \u00a0 "}
 var inject = []string{"\t", "\n", "\r"}
 
 // Noise adds surrounding C0/space and embedded tab/newline with small probability.
